@@ -10,6 +10,7 @@ import (
 	"go/token"
 	"os"
 	"path/filepath"
+	"sort"
 	"strconv"
 	"strings"
 
@@ -29,7 +30,39 @@ import (
 
 type c08Input struct {
 	Src      string `json:"src"`
-	Restorer string `json:"restorer"` // guess | simple
+	Restorer string `json:"restorer"`        // guess | simple
+	Reuse    bool   `json:"reuse,omitempty"` // one FileRestorer restores a partner file (the same imports, each under an alias) first
+}
+
+// c08PartnerOf: a canonical file that imports every path the source imports by name, each under an
+// alias of its own, and uses it; restored FIRST through the same FileRestorer
+func c08PartnerOf(src string) string {
+	pf, err := parser.ParseFile(token.NewFileSet(), "", src, parser.ImportsOnly)
+	if err != nil {
+		return ""
+	}
+	var specs, uses []string
+	seen := map[string]bool{}
+	for i, is := range pf.Imports {
+		p, _ := strconv.Unquote(is.Path.Value)
+		if p == "C" || seen[p] || (is.Name != nil && (is.Name.Name == "_" || is.Name.Name == ".")) {
+			continue
+		}
+		seen[p] = true
+		specs = append(specs, fmt.Sprintf("\tzq%d %q\n", i, p))
+		uses = append(uses, fmt.Sprintf("var _ = zq%d.X\n", i))
+	}
+	if len(specs) == 0 {
+		return ""
+	}
+	sort.Slice(specs, func(i, j int) bool {
+		return specs[i][strings.Index(specs[i], "\""):] < specs[j][strings.Index(specs[j], "\""):]
+	})
+	txt := "package partner\n\nimport (\n" + strings.Join(specs, "") + ")\n\n" + strings.Join(uses, "\n")
+	if b, err := format.Source([]byte(txt)); err == nil {
+		return string(b)
+	}
+	return ""
 }
 
 var c08Sources = []string{
@@ -183,7 +216,31 @@ func c08Check(in c08Input) (key, what string) {
 	var out string
 	pm := safely(func() {
 		var buf bytes.Buffer
-		err = decorator.NewRestorerWithImports("example.com/self", rr).Fprint(&buf, f)
+		if in.Reuse {
+			partner := c08PartnerOf(in.Src)
+			if partner == "" {
+				out = in.Src
+				return
+			}
+			pnames := accurateNames(partner)
+			pf, perr := decorator.NewDecoratorWithImports(token.NewFileSet(), "example.com/self", goast.WithResolver(guess.WithMap(pnames))).Parse(partner)
+			if perr != nil {
+				out = in.Src
+				return
+			}
+			fr := decorator.NewRestorerWithImports("example.com/self", rr).FileRestorer()
+			var pbuf bytes.Buffer
+			if err = fr.Fprint(&pbuf, pf); err != nil {
+				return
+			}
+			if pbuf.String() != partner {
+				err = fmt.Errorf("the partner file itself changed:\n%s", firstDiff(partner, pbuf.String()))
+				return
+			}
+			err = fr.Fprint(&buf, f)
+		} else {
+			err = decorator.NewRestorerWithImports("example.com/self", rr).Fprint(&buf, f)
+		}
 		out = buf.String()
 	})
 	if pm != "" {
@@ -237,7 +294,26 @@ func c08Prop(c *Ctx) {
 			srcs = append(srcs, string(b))
 		}
 	}
-	for _, src := range srcs {
+	// qualified identifiers with comments and line breaks in every gap (before, after the period --
+	// same line, end of line, own line, after an empty line --, after the name), made canonical
+	base := len(srcs)
+	for i := 0; i < base; i++ {
+		for k := 0; k < 2; k++ {
+			if b, err := format.Source([]byte(selGaps(c.Rng, srcs[i]))); err == nil && string(b) != srcs[i] {
+				srcs = append(srcs, string(b))
+			}
+		}
+	}
+	for si, src := range srcs {
+		if si%2 == 0 {
+			in := c08Input{Src: src, Restorer: "guess", Reuse: true}
+			c.Res.Evaluations++
+			c.Res.seen(fmt.Sprint(len(src), "reuse", src[:min(len(src), 60)]))
+			c.Res.hist("c08-restorer", "guess, FileRestorer reused after a partner file")
+			if key, what := c08Check(in); key != "" {
+				c.Res.fail(key, what, in)
+			}
+		}
 		for _, rk := range []string{"guess", "simple"} {
 			in := c08Input{Src: src, Restorer: rk}
 			c.Res.Evaluations++
